@@ -5,7 +5,7 @@ import UF.Proofs.HostRuleDispatch
   Helper lemmas for C17: bounds of the index functions, totality of `extractHostname` and
   `effectiveTLDPlusOne`, the URL grammar, label arithmetic for eTLD+1.
 -/
-namespace UF
+namespace UF.H
 open Bytes
 
 /-! ### Bounds of the search functions -/
@@ -248,9 +248,9 @@ theorem domainOrHost_noPanic (ext : Ext) (h : Bytes) : domainOrHost ext h ≠ .e
     exact this he
   · simp
 
-end UF
+end UF.H
 
-namespace UF
+namespace UF.H
 open Bytes
 
 /-! ### The URL grammar -/
@@ -363,4 +363,4 @@ theorem extract_host_url (scheme host tail : Bytes)
       rw [List.drop_take, hdrop]
       simp
 
-end UF
+end UF.H
